@@ -341,3 +341,5 @@ func (store *HStore) VerifBucketHome(bucketID int) string { return store.buckets
 func (store *HStore) VerifNumGCHistory(bucketID int) int {
 	return len(store.buckets[bucketID].GCHistory)
 }
+
+func (store *HStore) VerifHead(bucketID int) int { return store.buckets[bucketID].datas.newHead }
